@@ -3,7 +3,7 @@
    integer inputs, to the hand-written models of Model/Loops.v and Model/CTRBL.v.
    Method: GenProps/GenFunsClamp.v (clamp-invariance by conversion, then 11^5 arguments by vm_compute). *)
 From Coq Require Import ZArith List Bool Lia.
-From CPL Require Import Model.Base Model.CTRBL Model.Loops gen.GenFuns GenProps.GenFunsClamp.
+From CPL Require Import Model.Base Model.CTRBL Model.Loops gen.GenFuns_C15 GenProps.GenFunsClamp.
 Import ListNotations.
 Local Open Scope Z_scope.
 
